@@ -18,9 +18,9 @@ package main
 //      stretch of text with comments -- scanner model + parser model give the
 //      Spec's body_text (theorem C15_body_text_spec_partial; http://x clause:
 //      C15_http_not_comment), and comment-free text between the commands
-//      {sp} {nil} {\n} {\r} {\t} {lb} {rb} (C15_body_special_chars_spec).  Still by
-//      this check only: {literal} blocks, comments next to tags, other tags as
-//      neighbours of text.
+//      {sp} {nil} {\n} {\r} {\t} {lb} {rb} and {literal} blocks
+//      (C15_body_special_chars_spec, C15_literal_exact).  Still by this check
+//      only: comments next to tags, other tags as neighbours of text.
 
 import (
 	"encoding/hex"
